@@ -10,6 +10,7 @@ pub proof fn lemma_sig_bytes()
 }
 
 //@ fn canonical.rs canonicalize_query_to_string
+//@ hideutf8
 //@ props C08 C10 C18 C02 C17
 //@ ret r
 //@ replace 1 `key != X_AMZ_SIGNATURE` => `string_ne_str(key, X_AMZ_SIGNATURE)`
@@ -90,6 +91,7 @@ pub proof fn lemma_sig_bytes()
     proof {
         assert(is_canon_list(qmap(query_parameters@), l));
         assert(l.subrange(0, 0) =~= Seq::<Pair>::empty());
+        lemma_str_empty(Seq::<char>::empty());
     }
 //@ loop 3 iter it3
         invariant
